@@ -302,7 +302,7 @@ pub fn run(a: &Args, rep: &mut Report) {
             check_interp(rep, "C07", &batch, true);
             // call graphs on 8 threads at once, each on its own VM: frames and depth limits are per execution
             par_batches += 1;
-            if par_batches <= 3 {
+            if par_batches <= 3 * crate::mon_par::par_mult().max(1) as u32 {
                 crate::mon_par::exec_par(rep, "C07", &batch, if par_batches == 2 && with_jit { Engine::Jit } else { Engine::Interp });
             }
             if with_jit {
